@@ -456,11 +456,14 @@ def judge_o_reflect(inp, obs, lr):
 
 def gen_o_nonrefl(rng, n):
     for _ in range(n):
-        dim = rng.choice([2, 2, 3, 4])
+        # every dimension up to 6: which involutions are reflections depends on the parity and size of the dimension
+        dim = rng.choice([2, 2, 3, 4, 5, 6])
         kind = rng.choice(["rot", "lox", "par", "refl_lox", "two_refl", "id", "refl_rot", "refl", "refl",
-                           "point_refl_neg", "neg_refl", "neg_id", "half_turn"])
+                           "point_refl_neg", "neg_refl", "neg_id", "half_turn", "three_refl", "neg_three_refl"])
         if kind == "refl_rot" and dim < 3:
             kind = "rot"
+        if kind in ("three_refl", "neg_three_refl") and dim < 3:
+            kind = "two_refl"
         yield {"dim": dim, "kind": kind, "g": G.float_iso(rng, dim).tolist(), "a": rng.uniform(0.3, 2.8), "t": rng.uniform(0.3, 3.0) * rng.choice([-1, 1])}
 
 
@@ -501,6 +504,12 @@ def float_std(dim, kind, a, t):
     elif kind == "half_turn":      # rotation by pi about a codimension-2 subspace
         L[1, 1] = -1
         L[2, 2] = -1
+    elif kind in ("three_refl", "neg_three_refl"):
+        # product of three commuting reflections (dim >= 3; neither representative is a reflection):
+        # an orientation-reversing involution that is not a reflection
+        L[1, 1] = L[2, 2] = L[3, 3] = -1
+        if kind == "neg_three_refl":
+            L = -L
     return L
 
 
